@@ -432,6 +432,56 @@ fn cross_load(ctx: &Ctx, thorough: bool) {
     }
 }
 
+
+/// the same bytes through readers that deliver at most m bytes per read() call: equal observations
+fn readers(ctx: &Ctx) {
+    let fam = "load-through-readers";
+    if !ctx.wants_family(fam) {
+        return;
+    }
+    struct Chunked<'a> {
+        data: &'a [u8],
+        pos: usize,
+        m: usize,
+    }
+    impl<'a> std::io::Read for Chunked<'a> {
+        fn read(&mut self, buf: &mut [u8]) -> std::io::Result<usize> {
+            let n = buf.len().min(self.m).min(self.data.len() - self.pos);
+            buf[..n].copy_from_slice(&self.data[self.pos..self.pos + n]);
+            self.pos += n;
+            Ok(n)
+        }
+    }
+    let files: Vec<(String, Vec<u8>)> = vec![("big".into(), gen::big().encode()), ("b1".into(), gen::b1().encode()), ("subject".into(), subject().encode()), ("long-palette".into(), long_palette_sprite().encode())];
+    let ms = [1usize, 2, 7, 4093, 65535, 65536, 65537, 100_000];
+    ctx.family(fam, (files.len() * ms.len()) as u64, "`big` (every chunk above 64 KiB), b1, the C16 subject and the long-palette sprite loaded from the in-memory slice and through readers that return at most m bytes per read() call, m in {1, 2, 7, 4093, 65535, 65536, 65537, 100000}: equal full observations", true);
+    let cases: Vec<(usize, usize)> = (0..files.len()).flat_map(|f| (0..ms.len()).map(move |m| (f, m))).collect();
+    cases.par_iter().for_each(|(fi, mi)| {
+        let case = || format!("{} max_read={}", files[*fi].0, ms[*mi]);
+        if !ctx.wants(fam, &case) {
+            return;
+        }
+        let mut w = Want::all();
+        w.pal_probes = (0..300).collect();
+        let b = &files[*fi].1;
+        let Loaded::Ok(f1) = load(b) else { return };
+        let o1 = observe::observe(&f1, &w);
+        let r = std::panic::catch_unwind(std::panic::AssertUnwindSafe(|| AsepriteFile::read(Chunked { data: b, pos: 0, m: ms[*mi] })));
+        ctx.eval(2);
+        match r {
+            Ok(Ok(f2)) => {
+                let o2 = observe::observe(&f2, &w);
+                ctx.outcome(hash64(&o2));
+                if o1 != o2 {
+                    ctx.violation(Violation { family: fam.into(), case: case(), sig: "reader-dependent-load".into(), detail: mc_core::obs::first_diff(&o1, &o2), bytes: if b.len() < 300_000 { Some(b.clone()) } else { None }, extra: json!({}) });
+                }
+            }
+            Ok(Err(e)) => ctx.violation(Violation { family: fam.into(), case: case(), sig: "reader-dependent-load:error".into(), detail: format!("loads from the slice, fails through the reader: {}", e), bytes: None, extra: json!({}) }),
+            Err(_) => ctx.violation(Violation { family: fam.into(), case: case(), sig: "reader-dependent-load:panic".into(), detail: observe::take_panic(), bytes: None, extra: json!({}) }),
+        }
+    });
+}
+
 fn schedules(ctx: &Ctx, thorough: bool) {
     if !ctx.wants_family("schedules") {
         return;
@@ -740,6 +790,7 @@ pub fn run(ctx: &Ctx) -> i32 {
     histories(ctx, thorough);
     wide_histories(ctx, thorough);
     cross_load(ctx, thorough);
+    readers(ctx);
     schedules(ctx, thorough);
     schedules_sync(ctx, thorough);
     free_running(ctx);
